@@ -431,6 +431,45 @@ class Interp:
                 self.steps += 1
                 if self.steps > self.max_steps:
                     raise NotPure("step budget exceeded")
+        if k == "for":
+            itv = self.ev(n["iter"], env, depth)
+            if isinstance(itv, tuple) and len(itv) == 3 and itv[0] == "range" and isinstance(itv[1], int) and isinstance(itv[2], int):
+                itv = list(range(itv[1], itv[2]))
+            if isinstance(itv, dict) and "items" in itv and "pos" in itv:
+                seq = itv["items"][itv["pos"]:]
+                itv["pos"] = len(itv["items"])
+                itv = seq
+            if not isinstance(itv, list) and self.extern.get("iterate") is not None:
+                itv = self.extern["iterate"](itv)
+            if not isinstance(itv, list):
+                raise NotPure("for over a non-list")
+            for x in list(itv):
+                env2 = Scope(env)
+                if not self.match_pat(n["pat"], x, env2):
+                    raise NotPure("for pattern")
+                try:
+                    self.block(n["body"], env2, depth)
+                except _Break:
+                    break
+                except _Continue:
+                    continue
+            return None
+        if k == "while" and strip(n["cond"]).k == "let_expr":
+            c = strip(n["cond"])
+            while True:
+                v = self.ev(c["e"], env, depth)
+                env2 = Scope(env)
+                if not self.match_pat(c["pat"], v, env2):
+                    return None
+                try:
+                    self.block(n["body"], env2, depth)
+                except _Break:
+                    return None
+                except _Continue:
+                    pass
+                self.steps += 1
+                if self.steps > self.max_steps:
+                    raise NotPure("step budget exceeded")
         if k == "while" and strip(n["cond"]).k != "let_expr":
             while self.ev(n["cond"], env, depth):
                 try:
